@@ -337,7 +337,8 @@ func ruleP15Steps(p *Prog, r *Report) {
 			continue
 		}
 		ord := 0
-		eachInstr(f, func(in ssa.Instruction) {
+		// (also the steps of a walking helper, once per call of the helper with its arguments)
+		eachVInstr(f, func(in ssa.Instruction) {
 			c, ok := in.(ssa.CallInstruction)
 			if !ok {
 				return
@@ -368,11 +369,12 @@ func ruleP15Steps(p *Prog, r *Report) {
 	wp := p.method("klog/service/period", "Week", "Period")
 	if wp != nil {
 		var ks []int64
-		for _, b := range wp.Blocks {
-			iff, ok := b.Instrs[len(b.Instrs)-1].(*ssa.If)
+		eachVInstr(wp, func(in ssa.Instruction) {
+			iff, ok := in.(*ssa.If)
 			if !ok {
-				continue
+				return
 			}
+			b := iff.Block()
 			if bo, ok := iff.Cond.(*ssa.BinOp); ok && (bo.Op == token.EQL || bo.Op == token.NEQ) && accessorOfDate(bo.X, "Weekday") {
 				if k, isK := constInt(bo.Y); isK {
 					// the walk stops on the edge on which weekday == k
@@ -385,7 +387,7 @@ func ruleP15Steps(p *Prog, r *Report) {
 					}
 				}
 			}
-		}
+		})
 		ok := len(ks) == 2 && ((ks[0] == 1 && ks[1] == 7) || (ks[0] == 7 && ks[1] == 1))
 		r.check(ok, rule, "Week.Period:bounds", p.pos(wp.Pos()), "the week walks back to Monday (1) and forward to Sunday (7)", fmt.Sprintf("the week's bounds are weekdays %v, expected Monday=1 and Sunday=7", ks))
 	}
